@@ -3,6 +3,7 @@
      (2) Matcher / DistributionBuilder               (metrics-exporter-prometheus/src/{common,distribution}.rs,
                                                       sanitize_metric_name of formatting.rs, set_buckets_for_metric)
      (3) RollingSummary + Distribution::Summary      (metrics-exporter-prometheus/src/distribution.rs)
+     (4) Quantile::new / parse_quantiles             (metrics-util/src/quantile.rs; float formatting is an oracle)
    over an abstract floating-point interface [FloatOps]; Exec.v instantiates it with Coq's
    primitive binary64 floats.  Definitions only.
 
@@ -23,7 +24,8 @@ Record FloatOps := {
   fninf : F;                         (* f64::NEG_INFINITY *)
   fisinf : F -> bool;                (* f64::is_infinite *)
   fwithin : F -> F -> F -> bool;     (* fwithin q lo hi :  lo - eps*|lo| <= q <= hi + eps*|hi|,  eps = 1e-4 *)
-  fsame : F -> F -> bool             (* same value bit for bit (NaN payloads ignored) *)
+  fsame : F -> F -> bool;            (* same value bit for bit (NaN payloads ignored) *)
+  fclamp01 : F -> F                  (* q.max(0.0).min(1.0) *)
 }.
 
 (* ------------------------------------------------------------------ strings (shared, float-free) *)
@@ -92,6 +94,13 @@ Definition matches (fixed : bool) (m : matcher) (key : list N) : bool :=
                || (fixed && (utf8_len key =? utf8_len (snd m)) && str_eqb key (sanitize_name (snd m)))
   | MFull => str_eqb key (snd m)
   end.
+
+(* (4) metrics-util/src/quantile.rs  Quantile::new: the label from the two Display renderings
+   (oracle inputs: fc = format!("{}", clamped), fd = format!("{}", clamped * 100.0)) *)
+Definition qlabel (fc fd : list N) : list N :=
+  if str_eqb fc [48] then [109; 105; 110]                       (* "0" => "min" *)
+  else if str_eqb fc [49] then [109; 97; 120]                   (* "1" => "max" *)
+  else 112 :: filter (fun c => negb (c =? 46)) fd.              (* format!("p{}", display).replace('.', "") *)
 
 Section WithFloats.
 Variable O : FloatOps.
@@ -273,5 +282,8 @@ Fixpoint rrun (r : rsum) (ops : list rop) : list rout :=
   | [] => []
   | o :: rest => let '(r', x) := rstep r o in x :: rrun r' rest
   end.
+
+(* Quantile::new(q) = Quantile(clamped, label); parse_quantiles maps it over a slice *)
+Definition qnew (q : Fl) (fc fd : list N) : Fl * list N := (fclamp01 O q, qlabel fc fd).
 
 End WithFloats.
